@@ -282,6 +282,11 @@ def check(ctx):
 
     # ---- R5 callback wrapped before the runner sees it
     _check_wrapping(ctx, repo, outer)
+    # the wrapper itself: call-time resolution, eager symbol binding, at most one dispatch per tick (shared with C09)
+    ctx.rule("C09-R2", "shared with C09: arity guard dominates every dispatch of the re-resolving wrapper")
+    ctx.rule("C09-R3", "shared with C09: the wrapper resolves its symbol at call time, binds it eagerly at construction and dispatches at most once per call")
+    from . import c09
+    c09._r2_r3(ctx, repo)
 
 
 def _anc(node, stop):
